@@ -118,6 +118,7 @@ int main(int argc, char **argv) {
       int pok = h_is_perm(perm_r, n) && h_is_perm(perm_c, n); slusym_assert_true(pok, "C06.perms.bijections");
       if (pok && h_validate_LU(&L, &U, n, n, 0, &DL, &DU, "C06.struct")) { h_permuted(&As, perm_r, perm_c, &Bp); h_assert_LU_eq(&DL, &DU, &Bp, n, n, f == 1 ? "C05.LU=Pr(RAC)Pc" : "C06.LU=Pr(RAC)Pc");
         for (int j = 0; j < n; j++) e_assert_nonzero(DU.a[j][j], "C06.Udiag.nonzero");
+        { int ipc[NMAX]; for (int j = 0; j < n; j++) ipc[perm_c[j]] = j; h_assert_pivot_bounds(&DL, &DU, &Bp, n, n, u, perm_r, ipc, f != 3, "C06.multiplier.bound", "C06.diagonal.preference"); }
         if (growth) { /* reciprocal pivot growth = min(1/safmin, min_j max_i|A(:,j)| / max_i|U(:,j)|) over the factored (scaled, column-permuted) matrix */
           real_t cap = (real_t)1 / RMACH("S"); real_t prod = rpg - cap; slusym_assert_cmp(5, (double)rpg, (double)cap, 1.0, "C12.growth.is-min-over-columns");
           for (int j = 0; j < n; j++) { real_t ma = 0, mu_ = 0; for (int i = 0; i < n; i++) { real_t t = e_abs1(Bp.a[i][j]); ma = t > ma ? t : ma; if (i <= j) { real_t t2 = e_abs1(DU.a[i][j]); mu_ = t2 > mu_ ? t2 : mu_; } }
